@@ -46,6 +46,15 @@ type concWorld struct {
 	err  string
 	evs  []string // event log for the validation of M4c (driver linrest): inv / ret / end / tick / quiet
 	nid  int
+	t0   time.Time
+	reqs []reqObs // lock requests in invocation order, with the virtual instant of their invocation
+}
+
+type reqObs struct {
+	sess int
+	at   time.Duration // invoked (the gateway validates the cookie at or after this instant)
+	ret  time.Duration // returned (… and at or before this one)
+	code int
 }
 
 func (w *concWorld) ev(format string, a ...any) {
@@ -72,7 +81,7 @@ func newConcWorld(n int) *concWorld {
 	if err != nil {
 		panic(err)
 	}
-	w := &concWorld{sd: sd, resp: map[string]httpResp{}}
+	w := &concWorld{sd: sd, resp: map[string]httpResp{}, t0: time.Now()}
 	for i := 0; i < n; i++ {
 		if i > 0 { // sessions are created 1 s apart: two idle timers never fire at the same instant
 			time.Sleep(time.Second) // (the thread names of their callbacks would depend on the Go scheduler)
@@ -108,9 +117,16 @@ func newConcWorld(n int) *concWorld {
 func (w *concWorld) lockReq(th string, sess int, name string) {
 	id := w.newID()
 	w.ev("inv %d req %d", id, sess)
+	w.mu.Lock()
+	w.reqs = append(w.reqs, reqObs{sess: sess, at: time.Since(w.t0), code: -1})
+	ri := len(w.reqs) - 1
+	w.mu.Unlock()
 	r := w.sd.do("POST", "/v1/lock", &w.sess[sess].cookie, fmt.Sprintf(`{"name":%q}`, name))
 	if r.Panic == "" {
 		w.ev("ret %d %d", id, r.Code)
+		w.mu.Lock()
+		w.reqs[ri].code, w.reqs[ri].ret = r.Code, time.Since(w.t0)
+		w.mu.Unlock()
 	}
 	w.put(th, r)
 }
@@ -165,6 +181,27 @@ func (w *concWorld) finish(threads []string) conc.Outcome {
 	}
 	left := locksCanon(w.sd.ls, false)
 	d["ends"], d["left"], d["total_ends"] = ends, left, w.sd.svc.totalEnds()
+	// "a session stays valid as long as consecutive requests are less than the session timeout apart": a
+	// request less than T after the previous accepted request of its session (or after the session's last
+	// setup request at 0 / i seconds) must not be refused - unless a DELETE is part of the program
+	last := map[int]time.Duration{}
+	for i := range w.sess {
+		last[i] = time.Duration(i) * time.Second
+	}
+	early := []string{}
+	w.mu.Lock()
+	for _, r := range w.reqs {
+		// sound whatever the scheduler did between invocation, validation and return: the refusal was
+		// decided no later than r.ret, the previous accepted request re-armed the timer no earlier than its invocation
+		if r.code == 401 && r.ret-last[r.sess] < concT {
+			early = append(early, fmt.Sprintf("request of session %d (sent at %v) was answered 401 at %v although its previous accepted request arrived at %v, less than the session timeout %v before", r.sess, r.at, r.ret, last[r.sess], concT))
+		}
+		if r.code == 200 {
+			last[r.sess] = r.at
+		}
+	}
+	w.mu.Unlock()
+	d["refused_while_active"] = early
 	w.mu.Lock()
 	d["m4c_history"] = strings.Join(w.evs, "\n")
 	w.mu.Unlock()
@@ -195,6 +232,11 @@ func concPrograms() []concProgram {
 		}}
 	}
 	return []concProgram{
+		mk("lock(s0);lock(s0)||+6s||+6s", 1, []time.Duration{6 * time.Second, 6 * time.Second}, map[string][]int{"A": {200, 401}},
+			conc.Thread{Name: "A", Run: func(c any) {
+				c.(*concWorld).lockReq("A1", 0, "y")
+				c.(*concWorld).lockReq("A", 0, "z")
+			}}),
 		mk("lock(s0)||DELETE(s0)||idle-timeout", 1, []time.Duration{concT}, map[string][]int{"A": {200, 401}, "B": {200, 409}},
 			conc.Thread{Name: "A", Run: func(c any) { c.(*concWorld).lockReq("A", 0, "y") }},
 			conc.Thread{Name: "B", Run: func(c any) { c.(*concWorld).deleteReq("B", 0) }}),
@@ -222,11 +264,11 @@ func TestRestConc(t *testing.T) {
 			t.Fatalf("writing the result file: %v", err)
 		}
 	}()
-	res.Rule = "three programs on the instrumented gateway + real lock server (session timeout 10 s, every session holds one lock): (1) lock request || DELETE /session on one session, with a 10 s tick so the idle callback runs as a third thread; (2) lock requests on two sessions created 1 s apart, with one 11 s tick during which first one (at 10 s) then the other (at 11 s) session expires unless re-armed; (3) two lock requests || DELETE on one session. Every schedule with at most 2 preemptions (depth-first, capped per tier) plus PCT-style random schedules; each schedule = fresh bubble, fresh server. Monitors: every HTTP call returned, no deadlock, no panic, exactly one ConnEnd per session after a final 3T of silence, no hold left. distinct = distinct (program, schedule trace); non-trivial = at least one preemption, or the tick placed before the last thread finished"
+	res.Rule = "four programs on the instrumented gateway + real lock server (session timeout 10 s, every session holds one lock): (0) two consecutive lock requests of one session and two 6 s ticks placed anywhere, also in the middle of a request: a request less than 10 s after the previous accepted one must not be refused; (1) lock request || DELETE /session on one session, with a 10 s tick so the idle callback runs as a third thread; (2) lock requests on two sessions created 1 s apart, with one 11 s tick during which first one (at 10 s) then the other (at 11 s) session expires unless re-armed; (3) two lock requests || DELETE on one session. Every schedule with at most 2 preemptions (depth-first, capped per tier) plus PCT-style random schedules; each schedule = fresh bubble, fresh server. Monitors: every HTTP call returned, no deadlock, no panic, exactly one ConnEnd per session after a final 3T of silence, no hold left. distinct = distinct (program, schedule trace); non-trivial = at least one preemption, or the tick placed before the last thread finished"
 	// 200-370 schedules per second depending on the program and the machine: the quick caps keep the whole test under a minute
-	bound, capRuns, nRandom := 2, []int{6000, 2000, 1500}, 300
+	bound, capRuns, nRandom := 2, []int{1500, 6000, 2000, 1500}, 300
 	if common.Thorough() {
-		capRuns, nRandom = []int{200000, 50000, 50000}, 3000
+		capRuns, nRandom = []int{50000, 200000, 50000, 50000}, 3000
 	}
 	rng := common.NewRng(common.Seed())
 	for pi, cp := range concPrograms() {
@@ -287,6 +329,9 @@ func TestRestConc(t *testing.T) {
 					if all, _ := r.Outcome.Detail["total_ends"].(int); all != tot {
 						find("rest:conc:connend-count", fmt.Sprintf("%d ConnEnd events delivered in total, %d of them for the sessions of the program", all, tot))
 					}
+				}
+				if ea, _ := r.Outcome.Detail["refused_while_active"].([]string); len(ea) > 0 && !strings.Contains(cp.p.Name, "DELETE") {
+					find("rest:conc:active-session-refused", ea[0])
 				}
 				if left, _ := r.Outcome.Detail["left"].([]string); len(left) > 0 {
 					find("rest:conc:hold-left", fmt.Sprintf("holds %v are still listed after every session has ended", left))
